@@ -210,6 +210,10 @@ def explore(func, params, limits, seed=0, validate_every=1, max_validate=400):
                 break
             if len(res["inconclusive"]) >= 20:
                 break
+            if len(res["violations"]) >= limits.get("max_violations", 8):
+                # enough counterexamples from this job: do not enumerate the rest of a (possibly exploding) space
+                res["inconclusive"].append("stopped after %d violations" % len(res["violations"]))
+                break
     finally:
         S.ctx = None
     res["paths"] = npaths
